@@ -601,6 +601,12 @@ class Compiler:
                 f'operator "{type(node).__name__.lower()}('
                 f'{types.name(left.dtype)}, {types.name(right.dtype)})" not supported', node)
 
+        # Membership in sets and dictionaries hashes the left operand.
+        if issubclass(right.dtype, (set, frozenset, dict)) and not issubclass(left.dtype, collections.abc.Hashable):
+            raise CompilationError(
+                f'operator "{type(node).__name__.lower()}('
+                f'{types.name(left.dtype)}, {types.name(right.dtype)})" not supported', node)
+
         op = OPERATORS[type(node)][0]
         return op(left, right)
 
